@@ -3,6 +3,7 @@ package main
 import (
 	"fmt"
 	"runtime"
+	"sync/atomic"
 	"time"
 
 	"reduction.dev/reduction/dkv"
@@ -265,7 +266,79 @@ func (e *env) retain(cks []*ckpt) {
 
 func (e *env) checkpointEpisode() {
 	r := e.r
-	switch mode := r.Intn(6); mode {
+	mode := r.Intn(7)
+	if mode == 6 && len(e.ckptsOfPrimary()) == 0 {
+		mode = 0
+	}
+	switch mode {
+	case 6: // a retention update's save of the checkpoints file is slow (held) while the next checkpoint is taken and saved
+		cks := e.ckptsOfPrimary()
+		keep := map[uint64]bool{cks[len(cks)-1].id: true}
+		for _, ck := range cks[:len(cks)-1] {
+			if r.Intn(2) == 0 {
+				keep[ck.id] = true
+			}
+		}
+		var ids []uint64
+		for _, ck := range cks {
+			if keep[ck.id] {
+				ids = append(ids, ck.id)
+			}
+		}
+		var nth atomic.Int32
+		rel := e.gfs.HoldSaves(func(name string) bool { return name == "checkpoints" && nth.Add(1) == 1 })
+		e.logOp("retain(%v) [its save of the checkpoints file is held]", ids)
+		done := make(chan error, 1)
+		db := e.db
+		go func() { done <- db.UpdateRetainedCheckpoints(ids) }()
+		parked := e.gfs.WaitParked(1, 2*time.Second)
+		// DB.Checkpoint registers the checkpoint in the list under the list's mutex, which the retention update
+		// holds while it saves: the call itself may block until the held save is released, so it runs on its own
+		// goroutine (the model snapshot and the bookkeeping are taken here, at the call).
+		id := e.nextCkpt
+		e.nextCkpt += uint64(1 + e.r.Intn(2))
+		e.logOp("checkpoint(%d) [during-slow-retention-save]", id)
+		ck := &ckpt{id: id, snap: e.model.Clone(), state: "during-slow-retention-save", retained: true, owner: e.db}
+		e.ckpts = append(e.ckpts, ck)
+		e.c.Feat("checkpoints_during-slow-retention-save", 1)
+		called := make(chan func() (recovery.CheckpointHandle, error), 1)
+		go func() { called <- db.Checkpoint(id) }()
+		saved := make(chan struct{})
+		go func() {
+			w := <-called
+			called <- w
+			w()
+			close(saved)
+		}()
+		if parked {
+			select {
+			case <-saved:
+				e.c.Feat("checkpoint_saved_while_retention_save_in_flight", 1)
+			case <-time.After(3 * time.Millisecond):
+			}
+		}
+		rel()
+		select {
+		case <-saved:
+		case <-time.After(watchdog):
+			e.c.Inconclusive("checkpoint %d did not finish within the watchdog", id)
+		}
+		ck.wait = <-called
+		select {
+		case err := <-done:
+			if err != nil {
+				e.c.Fail("retain-error", e.wit(), "UpdateRetainedCheckpoints(%v): %v", ids, err)
+			}
+		case <-time.After(watchdog):
+			e.c.Inconclusive("the held retention update did not return within the watchdog")
+		}
+		for _, o := range e.ckpts {
+			if o.owner == e.db && o != ck && !keep[o.id] {
+				o.retained = false
+			}
+		}
+		e.c.Feat("retention_updates", 1)
+		e.awaitHandle(ck)
 	case 0: // synchronous, like the operator
 		ck := e.takeCheckpoint("sync")
 		ck.owner = e.db
@@ -333,7 +406,6 @@ func (e *env) checkpointEpisode() {
 
 // waitTasksExceptCheckpoint waits for flush/compaction tasks (the checkpoint save is not in the group).
 func (e *env) waitTasksExceptCheckpoint() { e.waitTasks() }
-
 
 // gcSettle forces collection rounds until no further table cleanup deletes a file.
 func (e *env) gcSettle() {
